@@ -313,6 +313,7 @@ func family(role string, seq []fclass, fam string, seed int64, thorough bool) mc
 					}
 					oc := fmt.Sprintf("delivered=%d/%d err=%v", len(got), len(allowed), firstErr != nil)
 					outcomes[oc]++
+					c.Case(tc.desc+"/"+ch.name, oc)
 					if !bytes.HasPrefix(allowed, got) {
 						fail(c, "prefix", "forged-bytes/"+fam, "%s [%s, %s reads]: delivered %d bytes that are not a prefix of the %d intact bytes preceding the damage (first difference at %d)", tc.desc, ch.name, role, len(got), len(allowed), firstDiff(allowed, got))
 						continue
